@@ -73,9 +73,9 @@ CHECKS = {
              "rounding and extreme output errors, and checks that every register decrypts to the plaintext interpreter's bit (Correct) and stays admissible (closure). Wrong-constant designs and a relaxed cap are rejected. "
              "The real gate API is then run, for both parameter sets in both orders in one process, on every gate x every input tuple x six kinds of admissible inputs (fresh, bootstrapped, injected error +-(1/32 - 16 sigma) "
              "in all sign patterns) plus aliased calls; each call is one event carrying the phases of all registers under the secret key, and TLC accepts the trace only if every event is a MachineP step "
-             "(sign consistent with the rounded linear combination, |output error| < 3/64, bystanders bit-identical, generator untouched) with Correct/Admissible in every state. Round-4 additions: constants (noiseless inputs) as a seventh input kind, and every gate once with operands re-randomised (same phases) so that the body of the bootstrapped combination is exactly 0 (rounded body 0, the branch a debug build asserts on).",
+             "(sign consistent with the rounded linear combination, |output error| < 3/64, bystanders bit-identical, generator untouched) with Correct/Admissible in every state. Round-4 additions: constants (noiseless inputs) as a seventh input kind, and every gate once with operands re-randomised (same phases) so that the body of the bootstrapped combination is exactly 0 (rounded body 0, the branch a debug build asserts on). The concrete level is bound too: the real gate functions are called on a cloud key set built from the embedded key material of the MachineC instance, and TLC recomputes the bit-exact reduced gate (linear combination, modulus switch, blind rotation, extraction, key switch; MUX as two bootstraps, sum and one key switch) for every recorded call.",
         note="A1/A2 are assumptions of the model, monitored on every recorded execution. Keys are sampled (VERIF_SEED). Quick: spqlios-fma optim (full), nayuki-portable optim and spqlios-fma debug (reduced); thorough: 5 back-ends x 2 builds x 3 seeds. "
-             "The bit-exact reduced-size algorithm (MachineC) is covered under C04/C09.",
+             "The bit-exact reduced-size algorithm (MachineC) is model-checked and replayed here (gate rows) and under C04/C09 (bootstrapping, external product).",
         design="§6 C01"),
     "C02": dict(
         category="model_checking",
